@@ -28,13 +28,21 @@ pub fn run(ctx: &Ctx) -> CheckResult {
     }
     // positive prices with one symbol 2.5e8 times larger: a big move that entered and left the window
     // must not leave residue in a (well-conditioned) later output
-    let mut spike = S_POS.to_vec();
-    spike.push(2.5e8);
+    // (inexact base values: integers are exactly representable next to the spike and would leave no residue)
+    let mut spike = S_POS_X.to_vec();
+    spike.push(2.5e8 + 0.3);
     let spike_ops = s_ops(&spike);
     for n in 1..=4usize {
         for k in [Kind::Rsi, Kind::FastStoch, Kind::Roc, Kind::Er] {
             spaces.push(Space { cfg: Cfg::p1(k, n), alphabet: spike_ops.clone(), depth: d - 1, label: "S_pos+spike" });
         }
+    }
+    // prices near the top of the f64 range (the formulas are scale-free; intermediate products are not)
+    for n in 1..=3usize {
+        for k in [Kind::Rsi, Kind::FastStoch, Kind::Roc] {
+            spaces.push(Space { cfg: Cfg::p1(k, n), alphabet: s_ops(&S_HUGE), depth: d - 2, label: "S_huge" });
+        }
+        spaces.push(Space { cfg: Cfg::p3(Kind::Ppo, n, n + 1, 2), alphabet: s_ops(&S_HUGE), depth: d - 3, label: "S_huge" });
     }
     // MFI-specific alphabet with equal typical prices between different bars, deeper
     let mfi_bars = b_ops(&b_mfi());
@@ -167,9 +175,15 @@ pub fn run(ctx: &Ctx) -> CheckResult {
             res.absorb(o);
         }
     }
+    // Default::default() instances against the reference for the parameters they report
+    if !res.out.failed() {
+        let mut o = JobOut::default();
+        default_instances(PROP, &[Kind::Rsi, Kind::FastStoch, Kind::SlowStoch, Kind::Roc, Kind::Er, Kind::Ppo, Kind::Cci, Kind::Mfi, Kind::Obv], &mut o);
+        res.absorb(o);
+    }
     res.require(res.out.stats.evaluations > 0, "no applicable oracle evaluation");
     res.rule = "case = (configuration, history of positive prices / valid bars) replayed on a fresh real instance; last output compared with the documented formula evaluated from scratch (double-double) at tolerance tau(t)*c*scale; steps with zero reference denominator or c>1e6 are skipped and counted; non-trivial = applicable and history longer than the look-back".into();
-    res.bounds = format!("seq(S_pos+reset,{d}) for RSI/FAST_STOCH/ROC/ER n=1..5 (and S_pos + a 2.5e8 spike symbol, n=1..4, one level shallower); seq(B_grid+reset,{db}) for FAST_STOCH/CCI/OBV; seq(B_vol,{dv}) for MFI n=1..5 and OBV; seq(B_mfi (5 bars with equal typical prices), 8/10) for MFI n=1..4; the same alphabets in a 2^-60 price unit for periods 1..4 at reduced depth; SLOW_STOCH over {{1,2,3,5}}^2, PPO over {{1,2,3,5}}^3 at reduced depth; deviation families for periods up to {}; very long runs (2 x 25k / 2 x 500k steps) of RSI/FAST_STOCH/SLOW_STOCH/ROC/ER/PPO/OBV against an incremental double-double reference", if th { 512 } else { 100 });
+    res.bounds = format!("seq(S_pos+reset,{d}) for RSI/FAST_STOCH/ROC/ER n=1..5 (and inexact prices + a 2.5e8 spike symbol, n=1..4, one level shallower; S_huge = prices of 1e307..7e307 for RSI/FAST_STOCH/ROC/PPO); seq(B_grid+reset,{db}) for FAST_STOCH/CCI/OBV; seq(B_vol,{dv}) for MFI n=1..5 and OBV; seq(B_mfi (5 bars with equal typical prices), 8/10) for MFI n=1..4; the same alphabets in a 2^-60 price unit for periods 1..4 at reduced depth; SLOW_STOCH over {{1,2,3,5}}^2, PPO over {{1,2,3,5}}^3 at reduced depth; deviation families for periods up to {}; very long runs (2 x 25k / 2 x 500k steps) of RSI/FAST_STOCH/SLOW_STOCH/ROC/ER/PPO/OBV against an incremental double-double reference", if th { 512 } else { 100 });
     res.assumptions = vec!["positive prices / valid bars only (the statement's domain)".into(), "c read as (largest magnitude entering numerator or denominator, inputs included) / |reference denominator|".into()];
     res
 }
